@@ -30,6 +30,11 @@ type Clause struct {
 	VarTypes []string
 	VarLocal []string // source-level local each VarName is bound to (defaults to the same name)
 	Canary   bool
+	Merged   bool // evaluate over the merged exit instead of per return site
+	Records  bool // call-history fact: assumed at call sites, nothing to prove in the function itself
+	Derive   string // derive@call: ghost conclusion assumed once the premise (Text) is proved
+	DeriveFnName string
+	DeriveFn *ssa.Function
 	// assert@call
 	Callee  string
 	Ordinal int
@@ -55,6 +60,7 @@ type ExternContract struct {
 	Key      string
 	Sig      string
 	Pure     bool
+	ByValue  bool // pure function of the pointees of its pointer arguments (interior pointers allowed)
 	Fresh    bool
 	Modifies []string
 	Requires []*Clause
@@ -88,7 +94,19 @@ type specFile struct {
 	goDecls []string
 }
 
+type Axiom struct {
+	Name   string
+	Params []string
+	Text   string
+	Pkg    string
+	FnName string
+	Fn     *ssa.Function
+	File   string
+}
+
 type ContractSet struct {
+	typeInvs  [][2]string
+	axioms    []*Axiom
 	mapInvs   [][2]string
 	contracts []*Contract
 	externs   []*ExternContract
@@ -107,7 +125,8 @@ func pkgShort(dir string) string {
 	return dir
 }
 
-var clauseRe = regexp.MustCompile(`^(requires|ensures|invariant|assert@call|assume)(\[[^\]]*\])?\s+(.*)$`)
+var clauseRe = regexp.MustCompile(`^(requires|ensures|records|invariant|assert@call|derive@call|assume)(\[[^\]]*\])?\s+(.*)$`)
+var recordsRe = regexp.MustCompile(`^[A-Z][A-Za-z0-9_]*\((\s*[A-Za-z_][A-Za-z0-9_]*\s*,?)*\)$`)
 var labelRe = regexp.MustCompile(`^([A-Za-z0-9_.\-]+):\s+(.*)$`)
 
 // readSpecLines returns logical //@ lines of a file (continuations joined).
@@ -193,6 +212,33 @@ func (cs *ContractSet) parseFile(path, pkgDir string, extern bool) {
 			} else {
 				sf.goDecls = append(sf.goDecls, rest)
 			}
+		case word == "axiom":
+			// axiom name (params): expr    -- universally quantified rule over ghost predicates
+			i := strings.Index(rest, "(")
+			if i < 0 {
+				cs.errs = append(cs.errs, where+": axiom needs (params)")
+				continue
+			}
+			name := strings.TrimSpace(rest[:i])
+			d, j := 0, i
+			for ; j < len(rest); j++ {
+				if rest[j] == '(' {
+					d++
+				} else if rest[j] == ')' {
+					d--
+					if d == 0 {
+						break
+					}
+				}
+			}
+			body := strings.TrimSpace(rest[j+1:])
+			body = strings.TrimPrefix(body, ":")
+			cs.axioms = append(cs.axioms, &Axiom{Name: name, Params: splitParams(rest[i+1 : j]), Text: strings.TrimSpace(body), Pkg: pkgDir, File: where})
+		case word == "typeinv":
+			f := strings.Fields(rest)
+			if len(f) == 2 {
+				cs.typeInvs = append(cs.typeInvs, [2]string{f[0], f[1]})
+			}
 		case word == "mapinv":
 			f := strings.Fields(rest)
 			if len(f) == 2 {
@@ -216,6 +262,7 @@ func (cs *ContractSet) parseFile(path, pkgDir string, extern bool) {
 			curExt.Sig = rest
 		case word == "pure" && curExt != nil:
 			curExt.Pure = true
+			curExt.ByValue = rest == "byvalue"
 		case word == "fresh" && curExt != nil:
 			curExt.Fresh = true
 		case word == "modifies" && curExt != nil:
@@ -258,7 +305,7 @@ func (cs *ContractSet) parseFile(path, pkgDir string, extern bool) {
 			}
 			kind, tags, text := m[1], parseTags(m[2]), m[3]
 			cl := &Clause{Kind: kind, Tags: tags, File: where}
-			if kind == "assert@call" {
+			if kind == "assert@call" || kind == "derive@call" {
 				// assert@call[tags] <callee> #n label: expr
 				f := strings.SplitN(text, " ", 3)
 				if len(f) < 3 {
@@ -312,6 +359,19 @@ func (cs *ContractSet) parseFile(path, pkgDir string, extern bool) {
 				continue
 			}
 			cl.Label, cl.Text = lm[1], lm[2]
+			if kind == "derive@call" {
+				i := strings.LastIndex(cl.Text, "|-")
+				if i < 0 {
+					cs.errs = append(cs.errs, where+": derive@call needs `premise |- GhostFact(args)`")
+					continue
+				}
+				cl.Derive = strings.TrimSpace(cl.Text[i+2:])
+				cl.Text = strings.TrimSpace(cl.Text[:i])
+				if !recordsRe.MatchString(cl.Derive) {
+					cs.errs = append(cs.errs, where+": derived conclusion must be one ghost predicate applied to names: "+cl.Derive)
+					continue
+				}
+			}
 			switch {
 			case curExt != nil:
 				if kind == "requires" {
@@ -324,6 +384,14 @@ func (cs *ContractSet) parseFile(path, pkgDir string, extern bool) {
 				case "requires":
 					cur.Requires = append(cur.Requires, cl)
 				case "ensures":
+					cur.Ensures = append(cur.Ensures, cl)
+				case "records":
+					if !recordsRe.MatchString(strings.TrimSpace(cl.Text)) {
+						cs.errs = append(cs.errs, where+": records clause must be a single call-history predicate applied to parameter/result names: "+cl.Text)
+						continue
+					}
+					cl.Records = true
+					cl.Kind = "ensures"
 					cur.Ensures = append(cur.Ensures, cl)
 				case "invariant":
 					cl.Loop = curLoop
@@ -643,6 +711,14 @@ func (cs *ContractSet) buildOverlay() (map[string][]byte, error) {
 			cl.FnName = fmt.Sprintf("spec_%d_%s", n, sanitize(cl.Label))
 			fmt.Fprintf(&body, "func %s(%s) bool { return %s }\n", cl.FnName, strings.Join(params, ", "), rewriteImplies(strings.Replace(cl.Text, "\n", " ", -1)))
 		}
+		for _, ax := range cs.axioms {
+			if ax.Pkg != dir {
+				continue
+			}
+			n++
+			ax.FnName = fmt.Sprintf("axiom_%d_%s", n, sanitize(ax.Name))
+			fmt.Fprintf(&body, "func %s(%s) bool { return %s }\n", ax.FnName, strings.Join(ax.Params, ", "), rewriteImplies(strings.Replace(ax.Text, "\n", " ", -1)))
+		}
 		for _, ct := range cs.contracts {
 			if ct.Pkg != dir {
 				continue
@@ -664,6 +740,11 @@ func (cs *ContractSet) buildOverlay() (map[string][]byte, error) {
 					ps = append(ps, v+" "+cl.VarTypes[i])
 				}
 				emit(cl, ps)
+				if cl.Derive != "" {
+					n++
+					cl.DeriveFnName = fmt.Sprintf("derive_%d_%s", n, sanitize(cl.Label))
+					fmt.Fprintf(&body, "func %s(%s) bool { return %s }\n", cl.DeriveFnName, strings.Join(ps, ", "), cl.Derive)
+				}
 			}
 			for _, cl := range ct.Loops {
 				ps := append([]string{}, sig.params...)
@@ -815,6 +896,17 @@ func (cs *ContractSet) resolve(e *Engine) {
 	for _, mi := range cs.mapInvs {
 		e.mapInv[mi[0]] = mi[1]
 	}
+	for _, ti := range cs.typeInvs {
+		e.typeInv[ti[0]] = ti[1]
+	}
+	for _, ax := range cs.axioms {
+		ax.Fn = find(ax.Pkg, ax.FnName)
+		if ax.Fn == nil {
+			e.stale = append(e.stale, "axiom "+ax.Name)
+			continue
+		}
+		e.axiomDefs = append(e.axiomDefs, ax)
+	}
 	for _, ct := range cs.contracts {
 		fn := e.funcs[ct.Key]
 		if fn == nil {
@@ -823,6 +915,9 @@ func (cs *ContractSet) resolve(e *Engine) {
 		}
 		for _, cl := range append(append(append(append([]*Clause{}, ct.Requires...), ct.Ensures...), ct.Loops...), ct.Asserts...) {
 			cl.Fn = find(ct.Pkg, cl.FnName)
+			if cl.DeriveFnName != "" {
+				cl.DeriveFn = find(ct.Pkg, cl.DeriveFnName)
+			}
 		}
 		e.contracts[ct.Key] = ct
 		if ct.Wrap64 {
